@@ -116,6 +116,19 @@ def plan_c08(pid, rng, quick):
                 batches.append(otap.rand_batch(rng, rich=1))
                 plan.append({"id": "parents/%s/%s/%d/%s" % (signal, with_, n_, pre), "signal": signal, "opts": {},
                              "batches": batches, "props": [], "mode": 2, "nowire": True, "nodecode": True})
+    # the same with parents whose only attributes are ones the encoder skips (they need an id but add no row), and
+    # warm histories: a small batch of the same shape first (no new column is requested later), the over-size batch
+    # (refused or not), then small batches of that shape again
+    for signal, with_, nres in [("traces", "spanattr-ignored", 1), ("logs", "logattr-ignored", 1), ("metrics", "dpattr-ignored", 1)] + \
+                               [k for k in kinds if k[1] != "plain"]:
+        for n_ in ([65537] if quick else [65536, 65537, 70000]):
+            small = {"gen": "parents", "n": 3 if nres else 70, "nres": nres or 3, "with": with_, "nodump": True}
+            big = {"gen": "parents", "n": n_, "nres": nres or n_, "with": with_, "nodump": True}
+            plan.append({"id": "parents-warm/%s/%s/%d" % (signal, with_, n_), "signal": signal, "opts": {},
+                         "batches": [dict(small), big] + [dict(small) for _ in range(7)], "props": [], "mode": 2, "nowire": True, "nodecode": True})
+            if "ignored" in with_:
+                plan.append({"id": "parents/%s/%s/%d" % (signal, with_, n_), "signal": signal, "opts": {},
+                             "batches": [big, otap.rand_batch(rng, rich=1)], "props": [], "mode": 2, "nowire": True, "nodecode": True})
     # dictionary regimes (valid input under every dictionary option)
     for i in range(24 if quick else 900):
         signal = rng.choice(["traces", "logs", "metrics"])
